@@ -71,6 +71,23 @@ func (x *Exec) call(st *State, c *ssa.Call) bool {
 		fr.regs[c] = refSV(IntC(0), c.Type())
 		return true
 	}
+	if x.havocHere(callee) {
+		// sound over-approximation of a callee that is not under contract here: arbitrary results, arbitrary heap
+		keeps := x.havocKeeps(callee)
+		for _, tn := range keeps {
+			why := x.prog.keepsCheck(callee, tn)
+			x.assert(st, fmt.Sprintf("frame:keeps:%s@%s", tn, calleeKey(callee)), BoolC(why == ""), "no function reachable from "+calleeKey(callee)+" writes a field of "+tn+" (structural) "+why, c.Pos())
+		}
+		preWM := st.wm
+		x.havocAll(st, keeps...)
+		res := x.freshOf(st, c.Type(), callee.Name()+".havoc")
+		if res.K == KRef && res.T != nil && returnsFreshObject(callee) {
+			// every return statement of the callee returns the address of a composite literal / new(T)
+			st.assume(And(Ne(res.T, IntC(0)), Ge(res.T, preWM)))
+		}
+		fr.regs[c] = res
+		return true
+	}
 	if fc := x.prog.contractFor(callee); fc != nil && !fc.Inline && !x.inlineHere(fc) {
 		fr.regs[c] = x.applyContract(st, c, callee, fc, args)
 		return true
@@ -93,6 +110,72 @@ func (x *Exec) call(st *State, c *ssa.Call) bool {
 	}
 	x.enterInline(st, callee, bind, args, c)
 	return true
+}
+
+func (x *Exec) havocHere(callee *ssa.Function) bool {
+	if x.fc == nil || callee == nil {
+		return false
+	}
+	k := calleeKey(callee)
+	for _, h := range x.fc.HavocCalls {
+		if h == k || h == "*" && x.prog.inScope(callee) {
+			return true
+		}
+	}
+	return false
+}
+
+// returnsFreshObject: syntactically, every return of fn yields an object allocated in fn.
+func returnsFreshObject(fn *ssa.Function) bool {
+	n := 0
+	for _, b := range fn.Blocks {
+		for _, in := range b.Instrs {
+			if r, ok := in.(*ssa.Return); ok {
+				if len(r.Results) != 1 {
+					return false
+				}
+				v := r.Results[0]
+				// naive form: the result may be re-loaded from never-reassigned local cells
+				for depth := 0; depth < 4; depth++ {
+					u, ok := v.(*ssa.UnOp)
+					if !ok || u.Op != token.MUL {
+						break
+					}
+					a, ok := u.X.(*ssa.Alloc)
+					if !ok {
+						break
+					}
+					var stored ssa.Value
+					cnt := 0
+					for _, ref := range *a.Referrers() {
+						if s, ok := ref.(*ssa.Store); ok && s.Addr == a {
+							stored = s.Val
+							cnt++
+						}
+					}
+					if cnt != 1 {
+						break
+					}
+					v = stored
+				}
+				if a, ok := v.(*ssa.Alloc); !ok || !a.Heap {
+					return false
+				}
+				n++
+			}
+		}
+	}
+	return n > 0
+}
+
+func (x *Exec) havocKeeps(callee *ssa.Function) []string {
+	if x.fc == nil {
+		return nil
+	}
+	if k, ok := x.fc.HavocKeeps[calleeKey(callee)]; ok {
+		return k
+	}
+	return x.fc.HavocKeeps["*"]
 }
 
 func (x *Exec) inlineHere(callee *FuncContract) bool {
@@ -468,7 +551,7 @@ func parseModifies(items []string) ([]modItem, error) {
 	for _, it := range items {
 		it = strings.TrimSpace(it)
 		switch {
-		case it == "alloc":
+		case it == "alloc" || it == "everything":
 			out = append(out, modItem{kind: "alloc", text: it})
 		case strings.HasPrefix(it, "map "):
 			base, err := parseCExpr(strings.TrimSpace(strings.TrimPrefix(it, "map ")))
